@@ -180,6 +180,17 @@ func (f *localWrapper) Sync(schema proxyv1alpha1.FlowControlSchema) {
 	return
 }
 
+// CurrentLocalFlowControl returns the concrete limiter currently installed in the local wrapper.
+// Callers that acquire and later release must do both on this object: the wrapper replaces its
+// limiter when the schema type changes, and a release routed through the wrapper would then be
+// accounted to a limiter that never admitted the request.
+func CurrentLocalFlowControl(w LocalFlowControlWrapper) flowcontrol.FlowControl {
+	if lw, ok := w.(*localWrapper); ok && lw.FlowControl != nil {
+		return lw.FlowControl
+	}
+	return w
+}
+
 type remoteWrapper struct {
 	GlobalCounterFlowControl
 	remoteConfig     proxyv1alpha1.RateLimitItemConfiguration
